@@ -43,7 +43,11 @@ LEVEL_TEXT = ("Generated-input search: each generated object is written, read ba
 LEVEL_NOTE = ("Exploration only. Schema validity of the XML (XSD) is not checked. Text fields are limited to a "
               "KVN-safe alphabet. Messages are those the library writes, plus (facet 'foreign') the repository's "
               "sample messages with a few digits of their numeric fields replaced: a message the reader refuses is "
-              "outside the property, one it accepts must be writable again. No coverage-guided (atheris) campaign.")
+              "outside the property, one it accepts must be writable again. Facet 'fuzz': quick tier = the 102-entry fuzz "
+              "corpus through the target's oracle; thorough tier = 4 x 12000 atheris executions of "
+              "vf/fuzz/ccsds_target.py (skipped, never a violation, if atheris is not importable); exception types "
+              "other than CcsdsError/ValueError/KeyError raised on edited messages are counted in evidence "
+              "(fuzz_exception_type_leaks), not failed: the property speaks of round trips, not of rejection.")
 TECHNIQUE = "property-based testing (Hypothesis), round-trip / differential KVN vs XML / idempotence oracles"
 
 FMTS = ("kvn", "xml")
@@ -530,6 +534,71 @@ def check_foreign(case):
     return dict(nt=True, cls=[typ, f"edits:{len(case['edits'])}"])
 
 
+# ------------------------------------------------------------------ fuzz (atheris, thorough tier)
+
+FUZZ_RUNS = 12000
+
+
+def fuzz_runner(shard, nshards, tier, stats):
+    """Shard 0 always sends the fuzz corpus itself (sample messages + both encodings of 24 generated objects)
+    through the target's oracle.  In the thorough tier every shard runs `vf.fuzz.ccsds_target` under atheris
+    (-runs, not time; seed from VERIF_SEED) in a child process and yields the crashing inputs, which
+    `check_fuzz` re-executes without atheris (a crash file is an ordinary replay case).  If atheris cannot be
+    imported the campaign is reported as skipped; that is never a violation."""
+    import glob
+    import shutil
+    import subprocess
+    import sys
+    import tempfile
+
+    from .. import core
+    from ..fuzz import ccsds_target
+
+    if shard == 0:
+        for k in range(len(ccsds_target.corpus())):
+            yield dict(data=[k])
+    if tier != "thorough":
+        return
+    deps = os.path.join(core.HERE, ".deps")
+    envv = dict(os.environ, PYTHONPATH=os.pathsep.join([deps, core.HERE]))
+    probe = subprocess.run([sys.executable, "-c", "import atheris"], env=envv, capture_output=True)
+    if probe.returncode != 0:
+        stats.extra["fuzz_skipped"] = 1
+        return
+    seed = core.shard_seed(os.environ.get("VERIF_SEED", "1") or "1", "C13", "fuzz", shard)
+    tmp = tempfile.mkdtemp(prefix="vf-fuzz-")
+    try:
+        r = subprocess.run([sys.executable, "-m", "vf.fuzz.ccsds_target", f"-runs={FUZZ_RUNS}", f"-seed={seed}",
+                            f"-artifact_prefix={tmp}/", "-max_len=48", "-len_control=0"], cwd=core.HERE, env=envv,
+                           capture_output=True, text=True, timeout=3000)
+        m = re.findall(r"^#(\d+)\s", r.stderr, flags=re.M)
+        stats.extra["fuzz_execs"] = int(m[-1]) if m else 0
+        rate = re.findall(r"exec/s: (\d+)", r.stderr)
+        if rate:
+            stats.extra["max_fuzz_exec_per_s"] = int(rate[-1])
+        leaks = re.findall(r"^LEAKS (\{.*\})", r.stderr, flags=re.M)
+        if leaks and leaks[-1] != "{}":
+            stats.extra["fuzz_exception_type_leaks"] = leaks[-1]
+        labels = re.findall(r"^LABELS (\{.*\})", r.stderr, flags=re.M)
+        if labels:
+            stats.extra["fuzz_labels"] = labels[-1]
+        crashes = sorted(glob.glob(os.path.join(tmp, "crash-*")))
+        if r.returncode != 0 and not crashes:
+            raise RuntimeError(f"atheris run failed without a crash file:\n{r.stderr[-2000:]}")
+        for path in crashes:
+            with open(path, "rb") as fh:
+                yield dict(data=list(fh.read()))
+    finally:
+        shutil.rmtree(tmp, ignore_errors=True)
+
+
+def check_fuzz(case):
+    from ..fuzz import ccsds_target
+
+    label = ccsds_target.one_input(bytes(case["data"]))
+    return dict(nt=label == "roundtrip", cls=[label])
+
+
 # ------------------------------------------------------------------ known findings (development aid)
 # Predicates are consulted only for keys listed in KNOWN_FINDINGS.txt (or, while developing, named in
 # VERIF_C13_ASSUME, comma separated or 'all').  Each pins failure kind + the input class that triggers it.
@@ -628,4 +697,7 @@ FACETS = [
     Facet("foreign", lambda s, t: foreign_case(sample_names()), check_foreign, setup=_setup_jpl,
           rule="the (possibly digit-edited) sample message was accepted by the reader",
           quick=(1, 250), thorough=(4, 2500)),
+    Facet("fuzz", check=check_fuzz, runner=fuzz_runner, setup=_setup_jpl,
+          rule="the (edited) message was accepted by the reader, written in both encodings and read back equal",
+          quick=(1, 0), thorough=(4, FUZZ_RUNS)),
 ]
